@@ -94,6 +94,11 @@ def jobs(tier):
         add('from_i32_d%d' % k, 'h_from_i32', ['C04'], 24, _cls(k), 900, 'from_integer<int32_t>', 'all int32 with %d digits' % k)
     for k in range(1, (6 if t else 4)):
         add('rt_i64_d%d' % k, 'h_rt_i64', ['C04', 'C01'], 24, _cls(k), 900, 'dec_to_integer(from_integer(v)) == v', 'all int64 with %d digits' % k)
+    for nd in ([1, 2, 3, 5] if not t else [1, 2, 3, 5, 9, 17]):
+        add('prettify_general_d%d' % nd, 'h_prettify', ['C01', 'C04'], 44, dict(ND=nd, PMODE=0), 900, 'prettify_string as dtoa_general calls it (-4, max_digits10): RFC 8259 number, keeps the floating kind, denotes digits*10^k exactly', 'all digit strings of length %d, every exponent k in [-400,400]' % nd, mem_gb=6)
+        add('prettify_fixed_d%d' % nd, 'h_prettify', ['C01', 'C04'], 44, dict(ND=nd, PMODE=1), 900, 'prettify_string as dtoa_fixed calls it (INT_MIN, INT_MAX): RFC 8259 number, keeps the floating kind, denotes digits*10^k exactly', 'all digit strings of length %d, every exponent k in [-30,30]' % nd, mem_gb=6)
+    for nb in ([1, 3, 5, 7] if not t else [1, 2, 3, 4, 5, 6, 7, 8, 9]):
+        add('dump_buffer_n%d' % nb, 'h_dump_buffer', ['C01', 'C04'], 44, dict(NB2=nb), 600, 'dump_buffer: printf float text -> RFC 8259 number with fraction or exponent, characters kept in order', 'all printf-grammar texts of length %d, decimal point . or ,' % nb, mem_gb=6)
     # C05: the same harnesses in safety mode (clang UBSan traps for signed overflow / shifts / bounds lowered to assertions + CBMC pointer checks)
     SAFETY_IDS = ['dec_u64', 'dec_i64', 'dec_i32', 'hex_i64', 'toi_i64_n3', 'toi_i64_negdec9_n20', 'from_i64_extreme', 'from_i32_extreme', 'from_i8_d3', 'rt_hex_i64', 'is_base10']
     for j in list(J):
